@@ -1,9 +1,11 @@
 # orchestrator configuration of the C02 check (loaded by tools/props.py)
-from stack import FULL_STACK, FULL_DEPS, QUIC_STACK, QUIC_DEPS
+from stack import FULL_STACK, FULL_DEPS, QUIC_STACK, QUIC_DEPS, TCPREUSE_STACK, TCPREUSE_ADD, TCPREUSE_PATCH
 
 SPEC = dict(
     pkg="./harness/c02",
-    instrument=FULL_STACK + QUIC_STACK,
+    instrument=FULL_STACK + QUIC_STACK + TCPREUSE_STACK,
+    overlay_add=TCPREUSE_ADD,
+    overlay_patch=TCPREUSE_PATCH,
     deps=FULL_DEPS + QUIC_DEPS,
     level="exploration",
     level_text=("seeded search over layers x write splits x read-buffer sequences x wire fragmentation x schedules of the real "
@@ -19,7 +21,9 @@ SPEC = dict(
                 "real end' is demanded of it, and a reader of the bare Noise / PSK connection whose deadline expired in the middle of a "
                 "frame stops (observation probe, deadlines are outside the property's quantifier); (0, nil) reads are tolerated; an error wrapping io.EOF after the last byte counts as the end. "
                 "Combinations covered: TCP x {Noise, TLS} x yamux (swarm and host streams), QUIC (host streams), the bare Noise / TLS / PSK "
-                "connections. Not covered: PSK underneath the upgrader (C04 runs it), tcpreuse sampledconn (internal package), a swarm-only "
+                "connections. The TCP mux/host layers run the listener through the shared-TCP path (real TcpTransport.Listen, tcpreuse demultiplexer, "
+                "sampledconn peek) in half of the runs. Not covered: PSK underneath the upgrader (C04 runs it), reads of sampledconn's peeked "
+                "bytes with buffer shapes the stack never uses (internal package, only reachable through the listener), a swarm-only "
                 "QUIC layer (streams are told apart by protocol id), WebTransport/WebRTC/websocket transports, OS sockets. In QUIC runs two "
                 "goroutines per run (crypto/tls's QUIC handshake goroutine calling back into instrumented code) yield without having been "
                 "started through an instrumented go statement; the self-test shows the runs are reproducible all the same."),
@@ -37,7 +41,8 @@ SPEC = dict(
           "per (stream, direction) 0-5 writes with sizes biased to 0, 1, 65518-65520, 65535-65537, 2x and 3x+1 Noise frames, the yamux "
           "window and the yamux-frame = Noise-frame edge, and a cycle of read-buffer sizes biased to 1, 2, 15-17, pending frame -17..+1, "
           "64Ki+-1, 1Mi with 0-64 bytes of spare capacity; zero-length buffers in the cycle; on bare connections optionally a second writer task per direction (payload keyed per write, "
-          "any order of whole writes accepted); per raw endpoint whether the final bytes arrive together with io.EOF; on "
+          "any order of whole writes accepted); per raw endpoint whether the final bytes arrive together with io.EOF; on the TCP mux/host layers whether the listener uses the shared-TCP path "
+          "(sampledconn peek; optionally 1-3 byte deliveries into the peek and 0-2 sick dials that end inside it); on "
           "Noise-based layers a prelude of 0-3 sacrificial Noise sessions closed with queued plaintext, closed twice / read after Close; non-trivial = a fault fired or at least two Reads returned data; distinct = "
           "distinct (scheduler decision hash, per-channel planned/accepted/delivered/read-count/end state)"),
     probes=["noise-in-place", "noise-pooled-whole-frame", "noise-pooled-partial", "noise-queued-remainder",
@@ -45,7 +50,8 @@ SPEC = dict(
             "read-after-eof", "tamper-detected", "short-read", "zero-byte-read", "read-timeout", "lazy-multistream-stream",
             "write-reaching-yamux-window",
             "layer-noise", "layer-tls", "layer-pnet", "layer-mux-noise", "layer-mux-tls", "layer-host-noise", "layer-host-tls", "layer-host-quic",
-            "quic-wire-faults-survived-every-byte-delivered", "quic-reader-got-an-error-under-wire-faults", "connection-closed-abruptly",
+            "quic-wire-faults-survived-every-byte-delivered", "quic-reader-got-an-error-under-wire-faults", "connection-closed-abruptly", "shared-tcp-listener",
+            "sick-dial-0-bytes", "sick-dial-1-bytes", "sick-dial-2-bytes", "sick-dial-3-bytes", "sick-dial-4-bytes",
             "stratum-clean", "stratum-timing", "stratum-stall", "stratum-adversary", "stratum-peer-close",
             "two-writers-on-one-connection", "zero-length-read", "zero-length-read-inside-a-frame",
             "final-bytes-and-eof-in-one-read", "session-closed-with-queued-plaintext", "session-closed-twice",
@@ -54,6 +60,7 @@ SPEC = dict(
     real=["ALL of the following run as tasks of the seeded scheduler (instrumented: every lock, channel operation, select, go statement is a scheduling point)",
           "noise.Transport / secureSession (handshake, Read, Write)", "libp2ptls.Transport + crypto/tls conn (stdlib, not instrumented)",
           "pnet pskConn", "upgrader (security + muxer negotiation), tcp transport dial path", "go-yamux session and streams + p2p/muxer/yamux glue",
+          "shared-TCP path on the listener (half of the TCP mux/host runs): TcpTransport.Listen, tcpreuse ConnMgr + demultiplexing listener, sampledconn",
           "QUIC layer: p2p/transport/quic, quicreuse, quic-go v0.59 (instrumented) with crypto/tls underneath, crypto/rand pinned by simrand",
           "swarm conns and streams", "basic host NewStream / stream handlers / streamWrapper, go-multistream lazy client + server negotiation",
           "identify, eventbus, pstoremem (present, not judged)"],
